@@ -42,6 +42,8 @@ MUTANTS = (('kwargs_by_position', 'Inv_FieldsByName'), ('ctrl_dropped', 'Inv_Con
            ('sorted_by_table', 'Inv_EvalOrderFieldsFirst'), ('ctrl_first', 'Inv_EvalOrderFieldsFirst'))
 MUTANT_SCOPE = 'NPs = {3} MaxPos = 4 MaxArgs = 4 MaxArgsOther = 1 MaxKwFixed = 1'
 TLC_WORKERS = 4
+# short runs: a JVM that does not wait for the optimising compiler starts (and ends) sooner on a loaded machine
+FAST_JVM = ['-Xmx2g', '-XX:TieredStopAtLevel=1']
 
 
 def carrier_api():
@@ -226,7 +228,8 @@ def main(chk, args):
     import libcst as cst
     rnd = random.Random(chk.seed)
     scope = 'small' if chk.tier == 'quick' else 'full'
-    r = tlc.run('Fixup', f'Fixup.{scope}.cfg', deadlock=False, workers=TLC_WORKERS, coverage=True)
+    jvm = FAST_JVM if chk.tier == 'quick' else None
+    r = tlc.run('Fixup', f'Fixup.{scope}.cfg', deadlock=False, workers=TLC_WORKERS, coverage=True, java_opts=jvm)
     chk.add_tlc(r, f'Fixup model check scope={scope}')
     chk.extra['action_coverage'] = {a: r.coverage.get(a, 0) for a in ('Init',) + ACTIONS}
     for a in ACTIONS:
@@ -235,7 +238,7 @@ def main(chk, args):
     killed = []
     for m, inv in MUTANTS:
         cfg = f'CONSTANTS Mutant = "{m}" {MUTANT_SCOPE}\nSPECIFICATION Spec\nINVARIANT {inv}\n'
-        rm = tlc.run('Fixup', cfg, deadlock=False, workers=1)
+        rm = tlc.run('Fixup', cfg, deadlock=False, workers=1, java_opts=FAST_JVM)
         if rm.ok or rm.violated != inv:
             raise core.MachineryError(f'Fixup mutant {m} not rejected by {inv} (violated={rm.violated})\n{rm.out[-1500:]}')
         killed.append(f'{m} -> {inv}')
@@ -247,7 +250,7 @@ def main(chk, args):
         if rs.violated != 'EvalOrderStrict':
             raise core.MachineryError(f'EvalOrderStrict expected to be violated (violated={rs.violated})\n{rs.out[-1500:]}')
         chk.tlc_runs.append(dict(label='Fixup strict evaluation order (must be violated: fields-first is what holds)', **rs.summary()))
-    cases, r2 = tlc.emit_cases('Fixup', f'Fixup.emit.{scope}.cfg', deadlock=False)
+    cases, r2 = tlc.emit_cases('Fixup', f'Fixup.emit.{scope}.cfg', deadlock=False, java_opts=jvm)
     chk.add_tlc(r2, f'Fixup case emission scope={scope}')
     if not cases:
         raise core.MachineryError('no cases emitted')
@@ -300,7 +303,7 @@ def main(chk, args):
                 continue
             events = []
             for c, i_, a, b in zip(cs, ins, o1, o2):
-                chk.case(render(c['call']), nontrivial=bool(c['call']['pos'] or c['call']['kw']))
+                chk.case(f"np={c['np']}:" + render(c['call']), nontrivial=bool(c['call']['pos'] or c['call']['kw']))
                 e1, e2 = conc(c['first'], names), conc(c['again'], names)
                 for asp, detail in aspects(c, e1, e2, i_, a, b):
                     k = f'{asp}:{key}' if asp else key
@@ -321,31 +324,33 @@ def main(chk, args):
                                                                    others=[x[1] for x in fl[1:6]]))
 
     # ---- code -> spec ---------------------------------------------------------------------------------------------------------
-    # non-vacuity riding along: corrupted copies of recorded traces (built from traces the prediction agrees with) must be rejected
+    # non-vacuity riding along, independent of the script under test: the trace the SPEC predicts for a seeded choice of cases
+    # must be accepted, three corrupted copies of it must be rejected
     import copy
-    good = [t for t in traces if t['key'].startswith('kwargs-in-order') and not any(k.endswith(t['key']) for k in fails)]
-    corrupted = []
-    for what in ('swap-values', 'drop-control', 'again-differs'):
-        cand = []
-        for t in good:
-            for j in range(0, len(t['events']), 2):
-                e = t['events'][j]
-                if len(e['rdict']) >= 2 and len(e['rkw']) >= 2:
-                    cand.append((t, j))
-        if not cand:
-            break
-        t, j = rnd.choice(cand)
-        t2 = copy.deepcopy(t); t2['events'] = t2['events'][j:j + 2]; e, g = t2['events']
+
+    def predicted_events(c, names):
+        i_, a, b = conc(c['call'], names), conc(c['first'], names), conc(c['again'], names)
+        return [dict(ev='out', attr=i_['attr'], name=i_['name'], pos=i_['pos'], kw=i_['kw'],
+                     rattr=a['attr'], rname=a['name'], rpos=a['pos'], rkw=a['kw'], rdict=a['dict']),
+                dict(ev='again', rattr=b['attr'], rname=b['name'], rpos=b['pos'], rkw=b['kw'], rdict=b['dict'])]
+
+    cand = [c for c in cases if c['rewritten'] and len(c['first']['dict']) >= 2 and len(c['first']['kw']) >= 2]
+    if not cand:
+        raise core.MachineryError('no case with two fields and a control argument to build the corrupted traces from')
+    selftest = []
+    for what in ('pristine', 'swap-values', 'drop-control', 'again-differs'):
+        c = rnd.choice(cand)
+        meth, names = namer(c['np'], table)
+        e, g = predicted_events(c, names)
         if what == 'swap-values':
             e['rdict'][0][1], e['rdict'][1][1] = e['rdict'][1][1], e['rdict'][0][1]
             g['rdict'] = copy.deepcopy(e['rdict'])
         elif what == 'drop-control':
             e['rkw'] = e['rkw'][:-1]; g['rkw'] = g['rkw'][:-1]
-        else:
+        elif what == 'again-differs':
             g['rdict'] = g['rdict'][1:]
-        t2['key'] = f"corrupted:{what}:{t['key']}"
-        corrupted.append(t2)
-    batch = traces + corrupted
+        selftest.append(dict(key=f"selftest:{what}:np={c['np']}:{render(c['call'])}", method=meth, params=table[meth], events=[e, g]))
+    batch = traces + selftest
     n, rt = tlc.validate_traces('FixupTrace', 'FixupTrace.total.cfg', batch, timeout=900)
     if n != len(batch) or rt.violated is not None:
         raise core.MachineryError(f'FixupTrace (total) did not process the batch: accepted={n} violated={rt.violated}\n' + rt.out[-3000:])
@@ -354,9 +359,10 @@ def main(chk, args):
     for v in rt.tagged.get('REJECTED', []):
         t, l = (int(x) for x in v.split(','))
         rej[t - 1] = l
-    missed = [batch[i]['key'] for i in range(len(traces), len(batch)) if i not in rej]
-    if missed or len(corrupted) != 3:
-        raise core.MachineryError(f'FixupTrace accepted corrupted traces {missed} (built {len(corrupted)} of 3)')
+    verdicts = [i in rej for i in range(len(traces), len(batch))]
+    if verdicts != [False, True, True, True]:
+        raise core.MachineryError(f'FixupTrace self-test: rejected={verdicts} for {[t["key"] for t in selftest]} (expected: only the pristine one accepted)')
+    corrupted = selftest[1:]
     chk.extra['corrupted_traces_rejected'] = [t['key'] for t in corrupted]
     acc = [i for i in range(len(traces)) if i not in rej]
     chk.traces += len(acc)
